@@ -231,6 +231,15 @@ func runCN(id int, c *cnCase, via string) cnLine {
 			mc.Feed(cnGood(nextID+1, false)) // trailing data in a separate fragment, must never be delivered
 			mc.WaitClosed(3 * time.Second)
 			term = true
+		case "xbig":
+			// one fragment: an undecodable header and more trailing bytes than the 4 KiB read buffer holds
+			b := cnBad()
+			for i := 0; i < 400; i++ {
+				b = append(b, cnGood(nextID+1, false)...)
+			}
+			mc.Feed(b)
+			mc.WaitClosed(3 * time.Second)
+			term = true
 		case "eof":
 			mc.FeedErr(io.EOF)
 			mc.WaitClosed(3 * time.Second)
